@@ -59,9 +59,13 @@ Definition c05_api_model (c : sexp) : sexp :=
 Definition c05_api_oracle (c out : sexp) : sexp := sB (sexp_eqb out (c05_api_model c)).
 
 (* entry 0: model output; entry 1: oracle on (case, implementation output) *)
+(* an API-stage case is (9 b SECS ...) with a LIST in third position; a hook-stage case (b ips pos ...) has a number
+   there, so a hook-stage case with fan-out 9 is not mistaken for an API-stage one *)
+Definition is_api (c : sexp) : bool :=
+  Z.eqb (getZ (nthS 0 c)) 9 && match nthS 2 c with L _ => true | _ => false end.
 Definition dispatch (k : Z) (arg : sexp) : sexp :=
   match k with
-  | 0 => if Z.eqb (getZ (nthS 0 arg)) 9 then c05_api_model arg else c05_model arg
-  | 1 => if Z.eqb (getZ (nthS 0 (nthS 0 arg))) 9 then c05_api_oracle (nthS 0 arg) (nthS 1 arg) else c05_oracle (nthS 0 arg) (nthS 1 arg)
+  | 0 => if is_api arg then c05_api_model arg else c05_model arg
+  | 1 => if is_api (nthS 0 arg) then c05_api_oracle (nthS 0 arg) (nthS 1 arg) else c05_oracle (nthS 0 arg) (nthS 1 arg)
   | _ => L [A (-1)%Z]
   end%Z.
